@@ -251,7 +251,10 @@ def wire_job(c):
         j['hostile'] = h
     elif ctx == 'ftplist':
         data = G.ftp_listing_classes()[cls]
-        j['listings'] = {'/sub/': data}
+        if cls.startswith('ml_'):
+            j['mlsd'] = {'/sub/': data}          # answered to MLSD (machine listing), which the client tries first
+        else:
+            j['listings'] = {'/sub/': data}
         if seg == 'bytes1':
             j['hostile'] = dict(at='data', do=('data', data, G.cuts_for(data, 'bytes1')))
     elif ctx == 'ftpparent':
@@ -349,7 +352,7 @@ def run_ftp(j):
             target = 'ftp://f.test/'
         site = dict(hosts={'a.test': X.A_IP}, urls=[], robots={})
         db = os.path.join(d, 't.db')
-        ftp = dict(files=files, dirs=dirs, listings=listings, hostile=j.get('hostile'))
+        ftp = dict(files=files, dirs=dirs, listings=listings, hostile=j.get('hostile'), mlsd=j.get('mlsd'))
         argv = X.ftp_argv(db, d, start)
         if j.get('sslv'):
             argv.remove('--no-check-certificate')
